@@ -141,6 +141,67 @@ func C19(c *core.Ctx) {
 		}
 		c.Hist("foreign binary time layouts rejected")
 	}
+	// the same instants through the paths that carry entries: a packed stream, the constructors, a Forward message --
+	// what comes back is the instant that went in (the first second of the epoch and the zero time included)
+	{
+		var insts []time.Time
+		for _, s0 := range []int64{0, 1, 59, 1<<32 - 1, 1700000000} {
+			for _, n0 := range []int64{0, 1, 500000000, 999999999} {
+				insts = append(insts, time.Unix(s0, n0).In(locs[(int(s0)+int(n0))%len(locs)]))
+			}
+		}
+		el := make(protocol.EntryList, len(insts))
+		for i, t := range insts {
+			el[i] = protocol.EntryExt{Timestamp: protocol.EventTime{Time: t}, Record: map[string]interface{}{"i": int64(i)}}
+		}
+		check := func(how string, got protocol.EntryList, err error) {
+			c.Eval()
+			if err != nil || len(got) != len(insts) {
+				c.Violation("judge-go", "c19-carried", fmt.Sprintf("%s: %d entries came back for %d (err %v)", how, len(got), len(insts), err), nil)
+				return
+			}
+			for i, t := range insts {
+				if got[i].Timestamp.Unix() != t.Unix() || got[i].Timestamp.Nanosecond() != t.Nanosecond() {
+					c.Violation("judge-go", "c19-carried", fmt.Sprintf("%s: the instant %d.%09d came back as %d.%09d", how, t.Unix(), t.Nanosecond(), got[i].Timestamp.Unix(), got[i].Timestamp.Nanosecond()),
+						map[string]interface{}{"sec": t.Unix(), "nsec": t.Nanosecond(), "zone": t.Location().String()})
+					return
+				}
+			}
+		}
+		if st, err := el.MarshalPacked(); err == nil {
+			var back protocol.EntryList
+			_, e := back.UnmarshalPacked(st)
+			check("MarshalPacked / UnmarshalPacked", back, e)
+		} else {
+			check("MarshalPacked", nil, err)
+		}
+		if pm, err := protocol.NewPackedForwardMessage("t", el); err == nil {
+			var back protocol.EntryList
+			_, e := back.UnmarshalPacked(pm.EventStream)
+			check("NewPackedForwardMessage", back, e)
+		}
+		if pm, err := protocol.NewCompressedPackedForwardMessage("t", el); err == nil {
+			raw, e := gunzipOne(pm.EventStream)
+			var back protocol.EntryList
+			if e == nil {
+				_, e = back.UnmarshalPacked(raw)
+			}
+			check("NewCompressedPackedForwardMessage", back, e)
+		}
+		fm := protocol.NewForwardMessage("t", el)
+		if b, err := fm.MarshalMsg(nil); err == nil {
+			var back protocol.ForwardMessage
+			_, e := back.UnmarshalMsg(b)
+			check("NewForwardMessage / MarshalMsg / UnmarshalMsg", back.Entries, e)
+		}
+		for i, t := range insts { // the caller's list itself
+			if el[i].Timestamp.Unix() != t.Unix() || el[i].Timestamp.Nanosecond() != t.Nanosecond() {
+				c.Violation("judge-go", "c19-carried", "the caller's entry list was re-stamped", nil)
+				break
+			}
+		}
+		c.Hist("instants through packed streams, constructors and Forward messages")
+	}
 	// decoding into an EventTime that already holds a value (a reused entry slot, a message decoded twice): the result
 	// is the payload's instant whatever the receiver held -- also when that value encodes to the same 8 bytes
 	// (seconds 2^32 apart) or is the same instant in another zone
